@@ -13,7 +13,8 @@ FUNCTIONS = ["sigpy.alg.GradientMethod.__init__/_update", "sigpy.alg.PrimalDualH
 BOUNDS = {"quick": "f = 0.5||Ax-b||^2 with concrete rational A (1x1, 2x1), g in {0, l1, l2^2, box}; n = 1; one update from an ARBITRARY symbolic state "
                    "(x, and z, t >= 1 when accelerated); PDHG: n = m = 1, scalar and array steps, theta=1 and both accelerated branches",
           "thorough": "adds n = 2 (A 2x2 diagonal and dense) for the gradient lemmas and PDHG with A 2x1 / 1x2"}
-OUTSIDE = ["the limit statements themselves (the solver decides the one-step lemmas from which the rates follow by the standard telescoping argument)",
+OUTSIDE = ["n = 2 with a thresholded prox (l1, box): the three-point / metric inequalities are beyond z3's budget there (unknown or > 1 h); n = 2 is "
+           "decided for g in {0, l2}", "the limit statements themselves (the solver decides the one-step lemmas from which the rates follow by the standard telescoping argument)",
            "n > 2", "complex data (the lemmas are stated for real vectors; complex = real of twice the dimension)",
            "convergence of the accelerated PDHG variants as a limit statement"]
 ASSUMPTIONS = ["0 < alpha <= 1/Lb with Lb a rational upper bound of ||A^T A|| (max absolute row sum)", "tau_i sigma_j Lb <= 1 with Lb >= ||A||^2",
@@ -352,6 +353,8 @@ def configs(tier, seed):
         for g in ("none", "l1", "l2", "box"):
             for acc in (False, True):
                 n = len(AMATS[A][0])
+                if n >= 2 and g in ("l1", "box"):
+                    continue        # two thresholded coordinates: the three-point inequalities are `unknown` / exceed 1 h in z3 (stated in OUTSIDE)
                 out.append({"id": "grad:%s:g=%s:acc=%s" % (A, g, acc), "h": "grad", "A": A, "g": g, "acc": acc, "max_paths": 3000,
                             "cost": 10 ** n})
     pm = ["a1"] + (["a21", "a12"] if full else [])
@@ -360,6 +363,8 @@ def configs(tier, seed):
             for steps in ("scalar", "array"):
                 out.append({"id": "pdhg-fixed:%s:g=%s:%s:plain" % (A, g, steps), "h": "pdhg", "A": A, "g": g, "steps": steps, "mode": "plain", "what": "fixed",
                             "max_paths": 3000})
+                if A != "a1" and g in ("l1", "box"):
+                    continue        # metric lemma with a thresholded prox beyond 1x1: > 1 h
                 out.append({"id": "pdhg-metric:%s:g=%s:%s" % (A, g, steps), "h": "pdhg", "A": A, "g": g, "steps": steps, "mode": "plain", "what": "metric",
                             "max_paths": 3000, "cost": 50})
             for mode in ("gamma_primal", "gamma_dual"):
